@@ -17,7 +17,7 @@ use crate::sched::{self, PointRec};
 pub fn meta() -> Meta {
     Meta {
         level: "model_checking",
-        rule: "stateless exploration of ALL schedules with at most 2 preemptions (thorough: 3 for the two-thread scripts) of 11 scripts with 2..3 application threads on a fresh real manager per execution (64 nodes, apply cache 16, 3 variables): S1 two threads compute the same conjunction; S2 recomputation vs. gc with the dead result still in the unique table and apply cache; S3 a different operator on shared operands vs. gc; S4 drop vs. gc vs. clone+or; S5 one thread running the multi-threaded ite/and with split depth 2 (fork/join through the hook spawns controlled threads); S6 gc vs. gc vs. xor; S8 add_vars (exclusive lock) vs. and; S9 two allocating threads on a 12-node manager; S10 ZBDD not (tautology chain) vs. gc; S11 quantification vs. gc vs. quantification; S12 compute-drop-recompute vs. gc; kinds bdd, bcdd, zbdd; MTBDD<I64>: M1 add with a fresh constant, constant dropped, another fresh constant (terminal slot recycling) vs. gc; M2 two threads creating the same new terminal vs. gc. Scheduling points: every level / store-state / manager-RwLock / terminal / cache-bucket lock acquisition (blocking ones with a readiness predicate, so deadlock = no enabled thread is detected), cache try-locks, gc try-lock and phases, handle clone/drop, fork/join. Oracle per execution: every result has the model's table and equals the handle obtained by recomputing sequentially in the same manager afterwards; no panic / deadlock; full audit with exact reference counts; after dropping everything + gc the initial node count. states = distinct (schedule outcome signatures), transitions = scheduling decisions taken, executions = schedules run.",
+        rule: "stateless exploration of ALL schedules with at most 2 preemptions (thorough: 3 for the two-thread scripts) of 12 scripts with 1..3 application threads on a fresh real manager per execution (64 nodes, apply cache 16, 3 variables): S1 two threads compute the same conjunction; S2 recomputation vs. gc with the dead result still in the unique table and apply cache; S3 a different operator on shared operands vs. gc; S4 drop vs. gc vs. clone+or; S5 one thread running the multi-threaded ite/and with split depth 2 (fork/join through the hook spawns controlled threads); S6 gc vs. gc vs. xor; S8 add_vars (exclusive lock) vs. and; S9 two allocating threads on a 12-node manager; S10 ZBDD not (tautology chain) vs. gc; S11 quantification vs. gc vs. quantification; S12 compute-drop-recompute vs. gc; S13 ite / S14 or+and on operands (x0 ? x1 : x2), (x0 ? !x2 : x2) with split depth 2 (forked joins) on a store with room for the operands plus 0..3 nodes (OutOfMemory inside one branch of a join while the sibling succeeds; failing operations are allowed, the reference counts and the node count after teardown must still be exact); kinds bdd, bcdd, zbdd; MTBDD<I64>: M1 add with a fresh constant, constant dropped, another fresh constant (terminal slot recycling) vs. gc; M2 two threads creating the same new terminal vs. gc. Scheduling points: every level / store-state / manager-RwLock / terminal / cache-bucket lock acquisition (blocking ones with a readiness predicate, so deadlock = no enabled thread is detected), cache try-locks, gc try-lock and phases, handle clone/drop, fork/join. Oracle per execution: every result has the model's table and equals the handle obtained by recomputing sequentially in the same manager afterwards; no panic / deadlock; full audit with exact reference counts; after dropping everything + gc the initial node count. states = distinct (schedule outcome signatures), transitions = scheduling decisions taken, executions = schedules run.",
         assumptions: vec![
             "only sequentially consistent interleavings at the instrumented points are explored; Relaxed/Acquire/Release reorderings of the atomics are not modelled".into(),
             "the background GC thread's condvar wake-up is not scheduled (node stores < 100 disable it); its effect, gc() under a shared manager lock at any point, is (S2-S4, S6, S10, S11)".into(),
@@ -43,6 +43,14 @@ pub fn shards(tier: &str) -> Vec<String> {
             }
             let bound = if tier == "thorough" && matches!(s, "s1" | "s2" | "s3" | "s8" | "s10") { 3 } else { 2 };
             v.push(format!("{k}:{s}:b{bound}"));
+        }
+    }
+    // S13: the multi-threaded apply (split depth 2, forked joins) on a store with room for the operands
+    // plus 0..5 nodes: OutOfMemory strikes inside one branch of a join while the sibling succeeds
+    for k in ["bdd", "bcdd", "zbdd"] {
+        for extra in 0..4 {
+            v.push(format!("{k}:s13c{extra}:b2"));
+            v.push(format!("{k}:s14c{extra}:b2"));
         }
     }
     for s in ["m1", "m2"] {
@@ -242,9 +250,11 @@ impl QOps for Zbdd {
     }
 }
 
-const F: Tab = 0xca; // x0 ? x1 : x2
+const F: Tab = 0xca; // x2 ? x1 : x0
 const G: Tab = 0x96; // parity
 const H: Tab = 0xe8; // majority
+const S14_F: Tab = 0xd8; // x0 ? x1 : x2
+const S14_G: Tab = 0x5a; // x0 ? !x2 : x2
 
 type Slot<T> = Mutex<Option<T>>;
 
@@ -260,16 +270,22 @@ where
     MRefOf<K>: Send + Sync,
 {
     let n = 3u32;
-    let cap = if script == "s9" {
+    let s13_extra: Option<usize> = script.strip_prefix("s13c").or(script.strip_prefix("s14c")).map(|x| x.parse().unwrap());
+    let script = if script.starts_with("s13c") { "s13" } else if script.starts_with("s14c") { "s14" } else { script };
+    let cap = if script == "s9" || script == "s13" || script == "s14" {
         // room for the operands plus three more nodes: both threads allocate, at least one runs dry
         let probe: MRefOf<K> = K::new_manager(64, 16, 1);
         probe.with_manager_exclusive(|m| {
             m.add_vars(n);
         });
-        let keep = [K::build(&probe, F).unwrap(), K::build(&probe, G).unwrap(), K::build(&probe, H).unwrap(), K::build(&probe, model::cube_tab(0b010, 0, n)).unwrap()];
+        let mut keep = vec![K::build(&probe, F).unwrap(), K::build(&probe, G).unwrap(), K::build(&probe, H).unwrap(), K::build(&probe, model::cube_tab(0b010, 0, n)).unwrap()];
+        if script == "s14" {
+            keep.push(K::build(&probe, S14_F).unwrap());
+            keep.push(K::build(&probe, S14_G).unwrap());
+        }
         let c = probe.with_manager_shared(|m| m.num_inner_nodes());
         drop(keep);
-        c + 3
+        c + s13_extra.unwrap_or(3)
     } else {
         64
     };
@@ -278,7 +294,7 @@ where
     mref.with_manager_exclusive(|m| {
         m.add_vars(n);
     });
-    if script == "s5" {
+    if script == "s5" || script == "s13" || script == "s14" {
         K::set_split_depth(&mref, Some(2));
     }
     let f = K::build(&mref, F).unwrap();
@@ -355,6 +371,25 @@ where
             }));
             expected[0] = Some(model::ite(F, G, H, n));
             expected[1] = Some(G & H);
+        }
+        "s13" => {
+            bodies.push(Box::new(move || {
+                *r[0].lock().unwrap() = Some(fr.ite(gr, hr));
+            }));
+            expected[0] = Some(model::ite(F, G, H, n));
+        }
+        "s14" => {
+            // f2 | g2, f2 & g2: the then-branch (x1 | !x2 resp. x1 & !x2) needs a node that does not exist yet,
+            // the else-branch (x2 op x2) is a terminal case returning a new reference to an existing inner node
+            extra_live.push(K::build(&mref, S14_F).unwrap());
+            extra_live.push(K::build(&mref, S14_G).unwrap());
+            let (f2, g2) = (extra_live[0].clone(), extra_live[1].clone());
+            bodies.push(Box::new(move || {
+                *r[0].lock().unwrap() = Some(f2.or(&g2));
+                *r[1].lock().unwrap() = Some(f2.and(&g2));
+            }));
+            expected[0] = Some(S14_F | S14_G);
+            expected[1] = Some(S14_F & S14_G);
         }
         "s6" => {
             bodies.push(Box::new(move || *gcr[0].lock().unwrap() = Some(mr.with_manager_shared(|m| m.gc()))));
@@ -441,7 +476,7 @@ where
             }
             Some(Err(_)) => {
                 sig.push_str(&format!("r{i}=oom;"));
-                if script != "s9" {
+                if script != "s9" && script != "s13" && script != "s14" {
                     errors.push(("unexpected_oom".into(), format!("result {i}: OutOfMemory on an ample manager")));
                 }
             }
